@@ -106,10 +106,12 @@ Definition psd_stale_file (ve : nat) (x : psd_ffs) : bool := match pdf_final x w
 Definition psd_stale (ve : nat) (st : psd_st) : bool := psd_stale_file ve (pds_s st) || psd_stale_file ve (pds_m st).
 
 (* the two directed schedules of the tie, up to the moment the shutdown dump has returned.
-   parked: the periodic dump has created its temp file and is held inside the serialisation (object lock); a change; OnShutdown's dump runs through.
+   parked: the periodic dump has created its temp file and is held inside the serialisation (object lock); a change; OnShutdown's dump
+           begins (clean-up, own temp file) and is held as well; both are released: the periodic dump's rename fails, OnShutdown's dump runs through.
    late:   a change; OnShutdown's dump has its temp file open when a periodic dump dispatched earlier begins with its clean-up. *)
 Definition psd_sched_parked : list psd_ev :=
-  [PsdStart PsdTimer; PsdStep PsdTimer; PsdStep PsdTimer; PsdChange; PsdStart PsdShut] ++ repeat (PsdStep PsdShut) 8.
+  [PsdStart PsdTimer; PsdStep PsdTimer; PsdStep PsdTimer; PsdChange; PsdStart PsdShut; PsdStep PsdShut; PsdStep PsdShut;
+   PsdStep PsdTimer; PsdStep PsdTimer] ++ repeat (PsdStep PsdShut) 6.
 Definition psd_sched_late : list psd_ev :=
   [PsdChange; PsdStart PsdShut; PsdStep PsdShut; PsdStep PsdShut; PsdStart PsdTimer; PsdStep PsdTimer; PsdStep PsdTimer;
    PsdStep PsdShut; PsdStep PsdShut] ++ repeat (PsdStep PsdShut) 4.
